@@ -469,8 +469,20 @@ def _run_hypothesis(strategy_fn, prop, n_cases, sd, classify, h: Harness, shrink
         v = best[1]
         st.extra["shrink_budget_hit"] += 1
         st.violations.append({"msg": v.msg, "case": v.case, "sig": v.sig})
-    except hypothesis.errors.Flaky as e:  # the oracle or the code is non-deterministic: report, do not judge
-        raise Inconclusive("flaky: %r" % (e,))
+    except hypothesis.errors.Flaky as e:
+        # The same input failed once and passed when hypothesis ran it again. The oracles here are pure functions of the case,
+        # so when the first run raised a Violation the code under test answered differently to identical calls: its outcome
+        # depends on earlier calls in the process. That wrong answer was observed and is reported (marked state-dependent);
+        # anything else that is flaky is a harness problem and stays inconclusive.
+        inner = [x for x in getattr(e, "exceptions", []) if isinstance(x, Violation)] or ([best[1]] if best else [])
+        if not inner:
+            raise Inconclusive("flaky: %r" % (e,))
+        v = inner[0]
+        fid = classify(v) if classify else None
+        if not (fid and h.listed(fid)):
+            st.violations.append({"msg": v.msg + "  [state-dependent: the identical call passed when repeated in the same process, so "
+                                  "the outcome depends on earlier calls; the replay file alone may not reproduce it]",
+                                  "case": v.case, "sig": "state-dependent:" + v.sig})
     st.frozen = False
     return st
 
